@@ -595,8 +595,42 @@ def gen_api_program(rng, aux):
 COMBOS = [(True, True, True), (True, True, False), (True, False, True),
           (False, True, True), (False, True, False), (False, False, True)]
 
-KNOWN_CRASH_SITES = ('klass.py:get_filters', 'compiled/__init__.py:builtin_from_name', 'iterable.py:_get_cls',
-                     'function.py:py__class__')
+def is_env_crash(sig):
+    """K1-K4 of DESIGN section E (absent typeshed): C01's listed findings, skipped here."""
+    site, exc, frames = sig.get('site') or '', sig.get('exc'), sig.get('frames') or []
+    if exc == 'RecursionError':
+        return 'get_filters' in site or 'get_filters' in frames
+    if exc == 'AttributeError':
+        return site.endswith('compiled/__init__.py:builtin_from_name') and 'non_stub_value_set' in (sig.get('msg') or '')
+    if exc == 'ValueError':
+        return site.endswith('iterable.py:_get_cls') or site.endswith('function.py:py__class__')
+    if exc == 'AssertionError':
+        return site.endswith('klass.py:get_filters')
+    return False
+
+
+def accessor_sig(e):
+    """Signature of an exception raised by a position accessor of a returned object."""
+    sig = dict(stream='accessor', exc=e['sig']['exc'], site=e['sig']['site'])
+    if e['sig']['exc'] == 'AttributeError' and "'NamespaceContext' object has no attribute 'code_lines'" in (e['sig'].get('msg') or ''):
+        sig['cls'] = 'namespace-has-no-code-lines'
+    return sig
+
+
+def safe_describe(obj, via, path, aux_path, out):
+    """_describe, with the environment crash classes skipped and anything else recorded."""
+    try:
+        return _describe(obj, via, path, aux_path)
+    except Exception as e:
+        sig = common.exc_sig(e)
+        if is_env_crash(sig):
+            out['skipped'] = out.get('skipped', 0) + 1
+            k = '%s@%s' % (sig['exc'], sig['site'])
+            out.setdefault('skipped_sites', {})
+            out['skipped_sites'][k] = out['skipped_sites'].get(k, 0) + 1
+        else:
+            out.setdefault('errors', []).append(dict(via=via, sig=sig, obj=repr(obj)[:80]))
+        return None
 
 
 def _pos_or_none(p):
@@ -634,13 +668,15 @@ def analyse(task):
         out['raw'] = {}
         for (a, d, r) in COMBOS:
             ns = s.get_names(all_scopes=a, definitions=d, references=r)
-            out['names'][(a, d, r)] = [(n.line, n.column, n.name, n.is_definition(), n.type) for n in ns]
+            out['names'][(a, d, r)] = [(n.line, n.column, n.name, n.is_definition()) for n in ns]
             out['raw'][(a, d, r)] = [(lf.start_pos[0], lf.start_pos[1]) for lf in
                                      helpers.get_module_names(module, all_scopes=a, definitions=d, references=r)]
         # details + definition paths for every token
         details = []
         for n in s.get_names(all_scopes=True, definitions=True, references=True):
-            d = _describe(n, 'get_names', path, aux_path)
+            d = safe_describe(n, 'get_names', path, aux_path, out)
+            if d is None:
+                continue
             leaf = module.get_leaf_for_position((n.line, n.column)) if n.line is not None else None
             if leaf is not None and leaf.type == 'name' and leaf.start_pos == (n.line, n.column):
                 defn = leaf.get_definition()
@@ -672,21 +708,19 @@ def analyse(task):
 
             def record(objs, via, depth=0):
                 for o in objs:
-                    try:
-                        d = _describe(o, via, path, aux_path)
-                        # definition path on the buffer tree (model input)
-                        if d['where'] == 'buffer' and d['line'] is not None and d['has_tree_name']:
-                            leaf = module.get_leaf_for_position((d['line'], d['column']))
-                            if leaf is not None and leaf.type == 'name' and leaf.start_pos == (d['line'], d['column']):
-                                defn = leaf.get_definition()
-                                d['def_path'] = None if defn is None else node_path(defn)
-                                d['leaf_value'] = leaf.value
-                            else:
-                                d['def_path'] = 'no-leaf'
-                        api.append(d)
-                    except Exception as e:
-                        out['errors'].append(dict(via=via, sig=common.exc_sig(e), obj=repr(o)[:80]))
+                    d = safe_describe(o, via, path, aux_path, out)
+                    if d is None:
                         continue
+                    # definition path on the buffer tree (model input)
+                    if d['where'] == 'buffer' and d['line'] is not None and d['has_tree_name']:
+                        leaf = module.get_leaf_for_position((d['line'], d['column']))
+                        if leaf is not None and leaf.type == 'name' and leaf.start_pos == (d['line'], d['column']):
+                            defn = leaf.get_definition()
+                            d['def_path'] = None if defn is None else node_path(defn)
+                            d['leaf_value'] = leaf.value
+                        else:
+                            d['def_path'] = 'no-leaf'
+                    api.append(d)
                     if depth == 0 and via in ('goto', 'infer', 'search'):
                         record(guard(via + '.parent', lambda: [x for x in [o.parent()] if x is not None]), via + '.parent', 1)
                         if o.type in ('class', 'function', 'module') and d['where'] in ('buffer', 'aux'):
@@ -799,21 +833,21 @@ Definition opt_range_eqb (a b : option (pos * pos)) : bool :=
 Definition starts (ls : list leaf) : list (N * N) := map lstart ls.
 (* one analysed source: every clause as a separate boolean *)
 Definition src_checks
-  (c : tree * str * list str * list (N * N * str * bool)
+  (c : tree * list str * list (N * N * str * bool)
        * list (bool * bool * bool * list (N * N) * list (N * N))
-       * list (N * str) * list (N * N * N * str)
+       * list (N * nat) * list (N * N * N * str)
        * list (N * N * option (list nat) * bool * option (pos * pos))
        * list (N * N * str)) : list bool :=
-  let '(t, code, code_lines, ttt, combos, line_codes, lc_probes, ranges, objs) := c in
+  let '(t, code_lines, ttt, combos, line_codes, lc_probes, ranges, objs) := c in
   let lines := split_lines (get_code t) in
   [ consistent t && names_wf t;
-    str_eqb (get_code t) code;
-    lines_eqb (split_lines code) code_lines && lines_eqb (split_lines_parso code) code_lines;
+    str_eqb (get_code t) (concat code_lines);
+    lines_eqb lines code_lines && lines_eqb (split_lines_parso (get_code t)) code_lines;
     obs_eqb (map obs_name (script_names t true true true)) ttt;
     forallb (fun x => let '(a, d, r, sorted_obs, raw_obs) := x in
                       poslist_eqb (starts (script_names t a d r)) sorted_obs
                       && poslist_eqb (starts (get_module_names t a d r)) raw_obs) combos;
-    forallb (fun x => let '(l, s) := x in str_eqb (get_line_code lines l 0 0) s) line_codes;
+    forallb (fun x => let '(l, k) := x in str_eqb (get_line_code lines l 0 0) (nth k code_lines [])) line_codes;
     forallb (fun x => let '(l, b, a, s) := x in str_eqb (get_line_code lines l b a) s) lc_probes;
     forallb (fun x => let '(l, c, path, fc, obs) := x in
                       match find_leaf (leaves t) (l, c) with
@@ -835,7 +869,7 @@ Definition split_ok (c : str * list str) : bool :=
   lines_eqb (split_lines s) obs && lines_eqb (split_lines_parso s) obs && str_eqb (concat obs) s.
 '''
 
-CLAUSES = ['consistent+names_wf (hypothesis on parso)', 'get_code = source', 'split_lines = code_lines',
+CLAUSES = ['consistent + names_wf (the hypothesis on parso)', 'get_code = joined code_lines', 'split_lines(get_code) = code_lines',
            'get_names(all_scopes, definitions, references) = name leaves in order (line, column, text, is_definition)',
            'get_names / get_module_names for every flag combination', 'get_line_code() = line',
            'get_line_code(before, after)', 'definition range = def_range on the tree and encloses the name',
@@ -860,6 +894,7 @@ def build_src_case(code, r, token_text):
     def nm(line, col, name):
         return token_text.get((line, col), name)
 
+    code_lines = r['code_lines']
     ttt = r['names'][(True, True, True)]
     g_ttt = g_list(ttt, lambda t: '(%d%%N, %d%%N, %s, %s)' % (t[0], t[1], g_str(nm(t[0], t[1], t[2])), g_bool(t[3])),
                    'N * N * str * bool')
@@ -868,9 +903,17 @@ def build_src_case(code, r, token_text):
         g_poslist([(t[0], t[1]) for t in r['names'][k]]), g_poslist(r['raw'][k])),
         'bool * bool * bool * list (N * N) * list (N * N)')
     by_line = {}
-    for d in r['details']:
-        by_line.setdefault(d['line'], d['line_code'])
-    line_codes = g_list(sorted(by_line.items()), lambda t: '(%d%%N, %s)' % (t[0], g_str(t[1])), 'N * str')
+    for d in r['details'] + [x for x in r.get('api', []) if x['where'] == 'buffer']:
+        if d['line'] is None or d['line_code'] is None or not d['has_tree_name']:
+            continue
+        s = d['line_code']
+        k = d['line'] - 1
+        if not (0 <= k < len(code_lines) and code_lines[k] == s):
+            # not that line (the oracle has reported it): point at an equal line if there is
+            # one, else at an index that cannot agree
+            k = code_lines.index(s) if s in code_lines else len(code_lines) + 1 + (s == '')
+        by_line.setdefault((d['line'], k), None)
+    line_codes = g_list(sorted(by_line), lambda t: '(%d%%N, %d%%nat)' % t, 'N * nat')
     lcp = g_list(r.get('line_code_probes', []), lambda t: '(%d%%N, %d%%N, %d%%N, %s)' % (t[0], t[1], t[2], g_str(t[3])), 'N * N * N * str')
     rng_items, seen = [], set()
     for d in r['details'] + [x for x in r.get('api', []) if x['where'] == 'buffer' and x.get('def_path', 'no-leaf') != 'no-leaf']:
@@ -897,32 +940,42 @@ def build_src_case(code, r, token_text):
             seen.add(key)
             objs.append(key)
     g_objs = g_list(objs, lambda t: '(%d%%N, %d%%N, %s)' % (t[0], t[1], g_str(t[2])), 'N * N * str')
-    return '(%s,\n %s,\n %s,\n %s,\n %s,\n %s,\n %s,\n %s,\n %s)' % (
-        r['tree'], g_str(code), g_lines(r['code_lines']), g_ttt, combos, line_codes, lcp, ranges, g_objs)
+    return '(%s,\n %s,\n %s,\n %s,\n %s,\n %s,\n %s,\n %s)' % (
+        r['tree'], g_lines(code_lines), g_ttt, combos, line_codes, lcp, ranges, g_objs)
+
+
+class Pending:
+    """A batch of Gallina cases to be evaluated after all implementation runs."""
+    def __init__(self, label, fn, cases, shard, on_fail):
+        self.label, self.fn, self.cases, self.shard, self.on_fail = label, fn, cases, shard, on_fail
+
+
+def shard_for(cases, nshards):
+    return max(1, -(-len(cases) // nshards))
 
 
 # ---------------------------------------------------------------------------------------
-# streams
+# streams (each returns a list of Pending)
 
 def stream_split(ctx):
     from parso.utils import split_lines
     import jedi
-    alpha = ['a', '\n', '\r', '\f', '\x85', ' ', '\t']
     import itertools
+    alpha = ['a', '\n', '\r', '\f', '\x85', ' ', '\t']
     maxlen = ctx.n(4, 5)
     strings = [''.join(t) for n in range(maxlen + 1) for t in itertools.product(alpha, repeat=n)]
-    pool = ['a', 'b', 'é', '\n', '\n', '\r', '\r\n', '\f', '\x0b', '\x1c', '\x1d', '\x1e', '\x85', ' ', ' ',
+    pool = ['a', 'b', 'é', '\n', '\n', '\r', '\r\n', '\f', '\x0b', '\x1c', '\x1d', '\x1e', '\x85', ' ', ' ',
             '\t', ' ', '\\', '#', 'x = 1', '"""', BOM]
     for _ in range(ctx.n(700, 15000)):
         strings.append(''.join(ctx.rng.choice(pool) for _ in range(ctx.rng.randint(3, 30))))
-    cases = []
+    cases, kept = [], []
     for i, s in enumerate(strings):
         try:
             real = split_lines(s, keepends=True)
         except Exception as e:
             ctx.deviation(dict(stream='split', exc=type(e).__name__), dict(string=s), 'parso split_lines raised %r' % e)
             continue
-        nontrivial = any(c in s for c in '\n\r\f\x0b\x1c\x1d\x1e\x85  ')
+        nontrivial = any(c in s for c in '\n\r\f\x0b\x1c\x1d\x1e\x85  ')
         ctx.count('split', s, nontrivial=nontrivial)
         spec = oracle_lines(s)
         if real != spec:
@@ -937,13 +990,14 @@ def stream_split(ctx):
                 ctx.deviation(dict(stream='split', cls='code-lines-not-python-lines'), dict(string=s, impl=cl, spec=spec),
                               'Script(%r)._code_lines = %r but the lines of the text are %r' % (s, cl, spec))
         cases.append('(%s, %s)' % (g_str(s), g_lines(real)))
-    fails, err = common.coq_failing(IMPORTS, 'split_ok', cases, shard=1500, defs=DEFS)
-    if err:
-        raise RuntimeError('coq evaluation failed (split): ' + err)
-    for i in fails[:5]:
-        ctx.violation('obligation', dict(what='correspondence split_lines: model and parso.utils.split_lines differ (the text oracle agreed with parso)',
-                                         stream='split', string=strings[i]), nofail=True)
+        kept.append(s)
     ctx.sample(dict(stream='split', string='a\r\n\x0cb\rc\x85d\n', impl=split_lines('a\r\n\x0cb\rc\x85d\n', keepends=True)))
+
+    def on_fail(fails):
+        for i in fails[:5]:
+            ctx.violation('obligation', dict(what='correspondence split_lines: model and parso.utils.split_lines differ (the text oracle agreed with parso)',
+                                             stream='split', string=kept[i]), nofail=True)
+    return [Pending('split', 'split_ok', cases, shard_for(cases, 3), on_fail)]
 
 
 def corpus_files():
@@ -961,13 +1015,17 @@ def corpus_files():
     return out
 
 
+def read_source(path):
+    from parso.utils import python_bytes_to_unicode
+    with open(path, 'rb') as f:
+        return python_bytes_to_unicode(f.read(), errors='replace')
+
+
 def _window_task(task):
     """Serialise windows of a corpus file's leaf sequence (runs in a worker)."""
     path, starts, maxchars = task
     import parso
-    from parso.utils import python_bytes_to_unicode
-    with open(path, 'rb') as f:
-        code = python_bytes_to_unicode(f.read(), errors='replace')
+    code = read_source(path)
     module = parso.parse(code)
     ok = module.get_code() == code
     leaves = list(iter_leaves(module))
@@ -977,11 +1035,10 @@ def _window_task(task):
         o += len(lf.prefix) + len(lf.value)
     wins = []
     n = len(leaves)
-    idxs = list(range(0, n, 1))
     for frac in starts:
         i = min(n - 1, int(frac * n))
-        # start at the beginning of a line: move forward to a leaf whose text begins a line
-        while i < n - 1 and not (offs[i] == 0 or code[offs[i] - 1] in '\r\n') :
+        # start at the beginning of a line
+        while i < n - 1 and not (offs[i] == 0 or code[offs[i] - 1] in '\r\n'):
             i += 1
         if offs[i] > 0 and code[offs[i] - 1] == '\r' and code[offs[i]:offs[i] + 1] == '\n':
             continue
@@ -1000,13 +1057,12 @@ def stream_corpus_windows(ctx):
     files = corpus_files()
     ctx.stat('corpus_files', len(files))
     if ctx.quick:
-        chosen = ctx.rng.sample(files, min(len(files), 20))
-        tasks = [(p, [ctx.rng.random()], 1500) for p in chosen]
+        chosen = ctx.rng.sample(files, min(len(files), 14))
+        tasks = [(p, [ctx.rng.random()], 1200) for p in chosen]
     else:
         tasks = []
         for p in files:
-            size = os.path.getsize(p)
-            k = max(1, size // 3000)
+            k = max(1, os.path.getsize(p) // 3000)
             tasks.append((p, [i / k for i in range(k)], 3000))
     res = common.pmap(_window_task, tasks, chunksize=2)
     cases, metas = [], []
@@ -1017,15 +1073,125 @@ def stream_corpus_windows(ctx):
             ctx.count('tree', ('win', w['path'], w['first_leaf']), nontrivial=w['n_leaves'] > 3)
             cases.append(w.pop('case'))
             metas.append(w)
-    fails, err = common.coq_failing(IMPORTS, 'win_ok', cases, shard=2, defs=DEFS, timeout=900)
-    if err:
-        raise RuntimeError('coq evaluation failed (corpus windows): ' + err)
-    for i in fails[:5]:
-        ctx.violation('obligation', dict(what='hypothesis `consistent` fails on a real parso tree: a recorded leaf position is not the position of its text (window of a corpus file)',
-                                         stream='tree', window=metas[i]), nofail=True)
     ctx.stat('corpus_windows', dict(n=len(cases), chars=sum(m['chars'] for m in metas), leaves=sum(m['n_leaves'] for m in metas)))
     if metas:
         ctx.sample(dict(stream='tree', **metas[0]))
+
+    def on_fail(fails):
+        for i in fails[:5]:
+            ctx.violation('obligation', dict(what='hypothesis `consistent` fails on a real parso tree: a recorded leaf position is not the position of its text (window of a corpus file)',
+                                             stream='tree', window=metas[i]), nofail=True)
+    return [Pending('corpus windows', 'win_ok', cases, shard_for(cases, ctx.n(7, 64)), on_fail)]
+
+
+def _corpus_names_task(task):
+    """Whole corpus file: every token through get_names + light api probes; all oracles
+    evaluated in the worker, only the findings are returned."""
+    path, seed = task
+    import random
+    import jedi
+    rng = random.Random(seed)
+    out = dict(path=os.path.relpath(path, common.REPO), bad=[], n_names=0, n_api=0, tokens=None)
+    try:
+        code = read_source(path)
+        s = jedi.Script(code, path=path)
+        module = s._module_node
+        lines = oracle_lines(code)
+        if list(s._code_lines) != lines:
+            out['bad'].append(('code-lines-not-python-lines', None, None))
+        names = s.get_names(all_scopes=True, definitions=True, references=True)
+        out['n_names'] = len(names)
+        descr = [safe_describe(n, 'get_names', path, None, out) for n in names]
+        n_listed = len(descr)
+        toks_chosen = rng.sample(names, min(5, len(names)))
+        for n in toks_chosen:
+            for via, fn in (('goto', lambda: s.goto(n.line, n.column)),
+                            ('get_references.file', lambda: s.get_references(n.line, n.column, scope='file')),
+                            ('get_context', lambda: [s.get_context(n.line, n.column)])):
+                try:
+                    objs = list(fn())
+                except Exception:
+                    continue            # C01's subject
+                for o in objs[:40]:
+                    descr.append(safe_describe(o, via, path, None, out))
+                    out['n_api'] += 1
+        for d in descr:
+            if d is None:
+                continue
+            if d['where'] == 'buffer':
+                ls = lines
+            elif d['where'] == 'file':
+                try:
+                    ls = file_lines(d['module_path'])
+                except OSError:
+                    continue
+            else:
+                continue
+            for clause, detail in check_described(d, ls):
+                out['bad'].append((clause, detail, {k: d[k] for k in ('via', 'where', 'line', 'column', 'name', 'type', 'def_start', 'def_end', 'module_path')}))
+        out['has_errors'] = has_error_nodes(module)
+        if '\r' not in code and not code.startswith(BOM):
+            try:
+                tree = ast.parse(code)
+                toks = identifier_tokens(code)
+                binds = binding_tokens(code, toks)
+                has_match = any(isinstance(n, ast.Match) for n in ast.walk(tree))
+                if any(d is None for d in descr[:n_listed]):
+                    raise ValueError('a listed name could not be described (environment crash class)')
+                obs = [(d['line'], d['column'], ('__' + d['name']) if any(b[0] == 'dunder-param-renamed' and b[2]['line'] == d['line'] and b[2]['column'] == d['column'] for b in out['bad']) else d['name'])
+                       for d in descr[:n_listed] if d is not None]
+                defs = {(d['line'], d['column']) for d in descr[:n_listed] if d is not None and d['is_def']}
+                out['tokens'] = dict(ok=obs == toks, missing=sorted(set(toks) - set(obs))[:5], extra=sorted(set(obs) - set(toks))[:5],
+                                     binds_ok=defs == binds, jedi_only=sorted(defs - binds)[:6], python_only=sorted(binds - defs)[:6],
+                                     has_match=has_match,
+                                     ff_indent=bool(re.search(r'(?m)^[ \t]*\f[ \t\f]*[^\s#]', code)))
+            except (SyntaxError, ValueError, AssertionError, tokenize.TokenError):
+                pass
+    except Exception as e:
+        out['fatal'] = common.exc_sig(e)
+    return out
+
+
+def stream_corpus_names(ctx):
+    files = corpus_files()
+    chosen = files if not ctx.quick else ctx.rng.sample(files, min(len(files), 20))
+    res = common.pmap(_corpus_names_task, [(p, ctx.rng.randrange(1 << 30)) for p in chosen], chunksize=1)
+    n_tok = 0
+    for r in res:
+        if 'fatal' in r:
+            ctx.deviation(dict(stream='corpus', exc=r['fatal']['exc'], site=r['fatal']['site']), dict(path=r['path'], error=r['fatal']),
+                          'get_names / position accessors raised %s on %s' % (r['fatal']['exc'], r['path']))
+            continue
+        for e in r.get('errors', []):
+            ctx.deviation(accessor_sig(e),
+                          dict(path=r['path'], via=e['via'], error=e['sig'], obj=e['obj']),
+                          '%s: a position accessor of a %s result raised %s' % (r['path'], e['via'], e['sig']['exc']))
+        ctx.count('corpus', r['path'], nontrivial=r['n_names'] > 0, n=1)
+        ctx.count('corpus-objects', None, nontrivial=False, n=r['n_names'] + r['n_api'])
+        for clause, detail, obj in r['bad'][:10]:
+            sig = dict(stream='oracle', cls=clause)
+            if clause == 'dunder-param-renamed':
+                sig['predicted'] = True
+            ctx.deviation(sig, dict(path=r['path'], object=obj, detail=detail),
+                          '%s: %s result %r at (%s, %s): %s (%r)' % (r['path'], obj and obj['via'], obj and obj['name'], obj and obj['line'], obj and obj['column'], clause, detail))
+        t = r['tokens']
+        if t is not None:
+            n_tok += 1
+            gap = r.get('has_errors')
+            for ok, cls, data in ((t['ok'], 'identifier-tokens', dict(missing=t['missing'], extra=t['extra'])),
+                                  (t['binds_ok'], 'is-definition', dict(jedi_only=t['jedi_only'], python_only=t['python_only']))):
+                if ok:
+                    continue
+                if t['has_match']:
+                    sig = dict(stream='oracle', cls='match-statement-unsupported', predicted=bool(gap))
+                elif gap and t['ff_indent']:
+                    sig = dict(stream='oracle', cls='formfeed-indent-parse-error', predicted=True)
+                else:
+                    sig = dict(stream='oracle', cls=cls)
+                ctx.deviation(sig, dict(path=r['path'], **data), '%s: %s oracle fails: %r' % (r['path'], cls, data))
+    ctx.stat('corpus_names', dict(files=len(chosen), with_token_oracle=n_tok, names=sum(r.get('n_names', 0) for r in res),
+                                  api_objects=sum(r.get('n_api', 0) for r in res)))
+    return []
 
 
 def oracle_names(ctx, label, src_lf, vname, code, r, info):
@@ -1041,7 +1207,6 @@ def oracle_names(ctx, label, src_lf, vname, code, r, info):
         ctx.deviation(dict(stream='oracle', cls='get_code-differs'), where, 'module.get_code() != source')
     ff_indent = bool(re.search(r'(?m)^[ \t]*\f[ \t\f]*[^\s#]', src_lf)) if src_lf else False
     parse_gap = r['has_errors'] and info.get('python_valid')
-    # every described object
     for d in r['details'] + r.get('api', []):
         if d['where'] == 'buffer':
             ls = lines
@@ -1065,36 +1230,30 @@ def oracle_names(ctx, label, src_lf, vname, code, r, info):
             ctx.deviation(sig, dict(where, object={k: d[k] for k in ('via', 'where', 'line', 'column', 'name', 'type', 'def_start', 'def_end', 'module_path')},
                                     detail=detail, line_text=ls[d['line'] - 1] if 1 <= d['line'] <= len(ls) else None),
                           '%s result %r at (%s, %s): %s (%r)' % (d['via'], d['name'], d['line'], d['column'], clause, detail))
-    # each identifier token exactly once / binds
     if info.get('tokens') is not None:
         toks = info['tokens']
         ttt = r['names'][(True, True, True)]
         obs = [(t[0], t[1], overrides.get((t[0], t[1]), t[2])) for t in ttt]
+
+        def gap_sig(cls):
+            if info.get('has_match'):
+                return dict(stream='oracle', cls='match-statement-unsupported', predicted=bool(r['has_errors']))
+            if parse_gap and ff_indent:
+                return dict(stream='oracle', cls='formfeed-indent-parse-error', predicted=True)
+            return dict(stream='oracle', cls=cls)
+
         if obs != toks:
             missing = sorted(set(toks) - set(obs))[:5]
             extra = sorted(set(obs) - set(toks))[:5]
-            dup = len(obs) != len(set(obs))
-            if info.get('has_match'):
-                sig = dict(stream='oracle', cls='match-statement-unsupported', predicted=bool(r['has_errors']))
-            elif parse_gap and ff_indent:
-                sig = dict(stream='oracle', cls='formfeed-indent-parse-error', predicted=True)
-            else:
-                sig = dict(stream='oracle', cls='identifier-tokens')
-            ctx.deviation(sig, dict(where, missing=missing, extra=extra, duplicates=dup, order_differs=sorted(obs) != obs),
+            ctx.deviation(gap_sig('identifier-tokens'),
+                          dict(where, missing=missing, extra=extra, duplicates=len(obs) != len(set(obs)), order_differs=sorted(obs) != obs),
                           'get_names(all_scopes, definitions, references) is not the list of identifier tokens: missing %r extra %r' % (missing, extra))
         binds = info['binds']
         defs = {(t[0], t[1]) for t in ttt if t[3]}
         if defs != binds:
-            if info.get('has_match'):
-                sig = dict(stream='oracle', cls='match-statement-unsupported', predicted=bool(r['has_errors']))
-            elif parse_gap and ff_indent:
-                sig = dict(stream='oracle', cls='formfeed-indent-parse-error', predicted=True)
-            else:
-                sig = dict(stream='oracle', cls='is-definition')
-            ctx.deviation(sig, dict(where, jedi_only=sorted(defs - binds)[:8], python_only=sorted(binds - defs)[:8]),
+            ctx.deviation(gap_sig('is-definition'), dict(where, jedi_only=sorted(defs - binds)[:8], python_only=sorted(binds - defs)[:8]),
                           'is_definition() differs from the binding tokens: only jedi %r, only Python %r' % (
                               sorted(defs - binds)[:4], sorted(binds - defs)[:4]))
-        # the flag combinations against the oracle (all_scopes=True)
         for (a, d_, r_) in COMBOS:
             if not a:
                 continue
@@ -1107,57 +1266,53 @@ def oracle_names(ctx, label, src_lf, vname, code, r, info):
     return overrides
 
 
-def _coq_sources(ctx, label, items):
+def pending_sources(ctx, label, items, nshards):
     """items: list of (meta, code, result, overrides) with result['tree'] present."""
     cases = [build_src_case(code, r, ov) for (meta, code, r, ov) in items]
-    fails, err = common.coq_failing(IMPORTS, 'src_ok', cases, shard=2, defs=DEFS, timeout=900)
-    if err:
-        raise RuntimeError('coq evaluation failed (%s): %s' % (label, err))
-    for i in fails[:4]:
-        meta, code, r, ov = items[i]
-        shown = common.coq_show(IMPORTS, ['src_checks %s' % cases[i]], defs=DEFS)
-        bools = re.findall(r'\b(true|false)\b', shown.split('=', 1)[-1])
-        failed = [CLAUSES[k] for k, b in enumerate(bools[:len(CLAUSES)]) if b == 'false']
-        ctx.violation('obligation', dict(what='correspondence %s: model and implementation differ on: %s' % (label, '; '.join(failed) or shown[-300:]),
-                                         stream=label, meta=meta, source=code, clauses=failed,
-                                         observed_names=r['names'][(True, True, True)][:60]), nofail=True)
-    return fails
+
+    def on_fail(fails):
+        for i in fails[:4]:
+            meta, code, r, ov = items[i]
+            shown = common.coq_show(IMPORTS, ['src_checks %s' % cases[i]], defs=DEFS)
+            bools = re.findall(r'\b(true|false)\b', shown.split('=', 1)[-1])
+            failed = [CLAUSES[k] for k, b in enumerate(bools[:len(CLAUSES)]) if b == 'false']
+            ctx.violation('obligation', dict(what='correspondence %s: model and implementation differ on: %s' % (label, '; '.join(failed) or shown[-300:]),
+                                             stream=label, meta=meta, source=code, clauses=failed,
+                                             observed_names=r['names'][(True, True, True)][:60]), nofail=True)
+    return Pending(label, 'src_ok', cases, shard_for(cases, nshards), on_fail)
 
 
 def stream_generated(ctx):
     """tree + names + tokens streams on generated valid programs in all line-ending variants."""
     nprog = ctx.n(10, 120)
-    tasks, metas = [], []
-    sizes = []
+    tasks, metas, sizes = [], [], []
     discarded = 0
     for pi in range(nprog):
         src, tries = gen_valid_program(ctx.rng, ctx.rng.randint(2, 5))
-        while len(src) > 2200:
+        while len(src) > 2000:
             src, t2 = gen_valid_program(ctx.rng, ctx.rng.randint(1, 3))
             tries += t2
         discarded += tries
         toks = identifier_tokens(src)
         binds = binding_tokens(src, toks)
         nlines = src.count('\n')
-        for vname, code in variants(ctx.rng, src):
-            sid = len(tasks)
+        for vi, (vname, code) in enumerate(variants(ctx.rng, src)):
+            in_coq = (not ctx.quick) or vi in (pi % 5, (pi + 2) % 5)
             probes = [(ctx.rng.randint(1, max(1, nlines)), ctx.rng.randint(0, 3), ctx.rng.randint(0, 3)) for _ in range(3)]
-            tasks.append(dict(sid=sid, code=code, tree=True, api=False, line_code_probes=probes))
+            tasks.append(dict(sid=len(tasks), code=code, tree=in_coq, api=False, line_code_probes=probes))
             metas.append(dict(program=pi, variant=vname, src_lf=src, tokens=toks, binds=binds, python_valid=True))
             sizes.append(len(code))
-    # small corpus files get the same treatment
     small = [p for p in corpus_files() if os.path.getsize(p) < 2500]
-    for p in ctx.rng.sample(small, min(len(small), ctx.n(4, 40))):
-        from parso.utils import python_bytes_to_unicode
-        code = python_bytes_to_unicode(open(p, 'rb').read(), errors='replace')
+    for p in ctx.rng.sample(small, min(len(small), ctx.n(3, 40))):
+        code = read_source(p)
         info = dict(program=os.path.relpath(p, common.REPO), variant='corpus', src_lf=None, tokens=None, binds=None)
         try:
             if '\r' not in code and '\f' not in code:
-                ast.parse(code)
+                tree = ast.parse(code)
                 info.update(tokens=identifier_tokens(code), python_valid=True, src_lf=code)
                 info['binds'] = binding_tokens(code, info['tokens'])
-                info['has_match'] = any(isinstance(n, ast.Match) for n in ast.walk(ast.parse(code)))
-        except (SyntaxError, ValueError, AssertionError, tokenize.TokenError, IndentationError):
+                info['has_match'] = any(isinstance(n, ast.Match) for n in ast.walk(tree))
+        except (SyntaxError, ValueError, AssertionError, tokenize.TokenError):
             info.update(tokens=None, binds=None)
         tasks.append(dict(sid=len(tasks), code=code, tree=True, api=False, line_code_probes=[(1, 1, 1)]))
         metas.append(info)
@@ -1171,20 +1326,26 @@ def stream_generated(ctx):
             ctx.deviation(dict(stream='names', exc=r['fatal']['exc'], site=r['fatal']['site']),
                           dict(source=t['code'], error=r['fatal']), 'get_names / position accessors raised %s' % r['fatal']['exc'])
             continue
+        for e in r['errors']:
+            ctx.deviation(accessor_sig(e),
+                          dict(source=t['code'], via=e['via'], error=e['sig'], obj=e['obj']),
+                          'a position accessor of a %s result raised %s' % (e['via'], e['sig']['exc']))
         nerr += bool(r['has_errors'])
         n_names = len(r['names'][(True, True, True)])
         ctx.count('names', (t['code'],), nontrivial=n_names > 0)
-        ctx.count('tree', ('gen', t['code']), nontrivial=n_names > 0)
         if m['tokens'] is not None:
             ctx.count('tokens', (t['code'],), nontrivial=n_names > 0)
         ov = oracle_names(ctx, 'names', m['src_lf'], m['variant'], t['code'], r, m)
-        items.append((dict(program=m['program'], variant=m['variant']), t['code'], r, ov))
+        if t['tree']:
+            ctx.count('tree', ('gen', t['code']), nontrivial=n_names > 0)
+            items.append((dict(program=m['program'], variant=m['variant']), t['code'], r, ov))
     ctx.stat('generated_with_parso_error_nodes', nerr)
-    _coq_sources(ctx, 'names', items)
+    ctx.stat('generated_in_coq', dict(sources=len(items), chars=sum(len(c) for (_, c, _, _) in items)))
     if items:
         meta, code, r, ov = items[0]
         ctx.sample(dict(stream='names', variant=meta['variant'], source_head=code[:160],
                         names=r['names'][(True, True, True)][:8]))
+    return [pending_sources(ctx, 'names', items, ctx.n(12, 64))]
 
 
 def stream_api(ctx):
@@ -1196,7 +1357,7 @@ def stream_api(ctx):
         auxsrc, aux = gen_aux_module(ctx.rng)
         if pi % 3 == 2:      # a random program instead of the template, same probes
             src, _ = gen_valid_program(ctx.rng, ctx.rng.randint(2, 4))
-            while len(src) > 1800:
+            while len(src) > 1500:
                 src, _ = gen_valid_program(ctx.rng, ctx.rng.randint(1, 3))
             complete_src = src
         else:
@@ -1213,13 +1374,13 @@ def stream_api(ctx):
         with open(path, 'w', newline='', encoding='utf8') as f:
             f.write(code)
         toks = identifier_tokens(complete_src)
-        k = ctx.n(14, 40)
-        chosen = ctx.rng.sample(toks, min(k, len(toks)))
+        chosen = ctx.rng.sample(toks, min(ctx.n(12, 40), len(toks)))
         probes = [(l, c + ctx.rng.randint(0, len(s)), 'name') for (l, c, s) in chosen]
         probes += [(l, c + len(s), 'complete') for (l, c, s) in ctx.rng.sample(toks, min(4, len(toks)))]
         calls = [(li + 1, m.end()) for li, t in enumerate(src.split('\n')) for m in re.finditer(r'\w\(', t)]
         probes += [(l, c, 'call') for (l, c) in ctx.rng.sample(calls, min(5, len(calls)))]
-        words = ctx.rng.sample(sorted({s for (_, _, s) in toks}), min(3, len({s for (_, _, s) in toks})))
+        distinct = sorted({s for (_, _, s) in toks})
+        words = ctx.rng.sample(distinct, min(3, len(distinct)))
         tasks.append(dict(sid=pi, code=code, path=path, aux_path=aux_path, probes=probes, api=True, tree=True, search=words,
                           line_code_probes=[(ctx.rng.randint(1, 6), 2, 1)]))
         info = dict(program=pi, variant=vname, src_lf=src, tokens=None, binds=None, aux_lines=oracle_lines(auxcode), python_valid=True)
@@ -1234,7 +1395,7 @@ def stream_api(ctx):
                           dict(source=t['code'], error=r['fatal']), 'Script / get_names raised %s' % r['fatal']['exc'])
             continue
         for e in r['errors']:
-            ctx.deviation(dict(stream='api', exc=e['sig']['exc'], site=e['sig']['site']),
+            ctx.deviation(accessor_sig(e),
                           dict(source=t['code'], via=e['via'], error=e['sig'], obj=e['obj']),
                           'a position accessor of a %s result raised %s' % (e['via'], e['sig']['exc']))
         for d in r['api']:
@@ -1249,11 +1410,11 @@ def stream_api(ctx):
     ctx.stat('api_results_by_method', via_counts)
     ctx.stat('api_results_by_target', where_counts)
     ctx.stat('api_queries_skipped_after_exception(C01 subject)', skipped)
-    _coq_sources(ctx, 'api', items)
     if items:
         meta, code, r, ov = items[0]
         ex = [d for d in r['api'] if d['where'] in ('buffer', 'aux') and d['line']][:3]
         ctx.sample(dict(stream='api', variant=meta['variant'], results=[{k: d[k] for k in ('via', 'where', 'line', 'column', 'name', 'def_start', 'def_end')} for d in ex]))
+    return [pending_sources(ctx, 'api', items, ctx.n(10, 48))]
 
 
 MATCH_SRC = '''def handle(command):
@@ -1272,15 +1433,15 @@ MATCH_SRC = '''def handle(command):
 def stream_special(ctx):
     """Known refutations, reproduced on the implementation with the model's verdict:
     a buffer starting with U+FEFF, a match statement, a `__x` parameter."""
-    # --- BOM
     srcs = [BOM + 'x = 1\ny = x\n', BOM + 'def f(a):\r\n    return a\r\n', BOM + 'import os\rz = os\r']
     tasks = [dict(sid=i, code=s, tree=True, api=False) for i, s in enumerate(srcs)]
     tasks.append(dict(sid=len(tasks), code=MATCH_SRC, tree=True, api=False))
+    tasks.append(dict(sid=len(tasks), code='def f(__a, b, __c__=1):\n    return __a\n', tree=True, api=False))
     results = [analyse(t) for t in tasks]
     trees = ['consistent (%s)' % r['tree'] for r in results[:len(srcs)] if 'tree' in r]
     shown = common.coq_show(IMPORTS, trees, defs=DEFS)
     verdicts = re.findall(r'=\s*(true|false)', shown)
-    for t, r, v in zip(tasks, results, verdicts + ['?'] * len(tasks)):
+    for t, r, v in zip(tasks[:len(srcs)], results, verdicts + ['?'] * len(tasks)):
         if 'fatal' in r:
             ctx.deviation(dict(stream='special', exc=r['fatal']['exc']), dict(source=t['code'], error=r['fatal']), 'Script raised')
             continue
@@ -1289,9 +1450,10 @@ def stream_special(ctx):
         oracle_names(ctx, 'special-bom', None, 'bom', t['code'], r, info)
         lines = oracle_lines(t['code'])
         later = [d for d in r['details'] if d['line'] and d['line'] > 1]
-        assert all(not check_described(d, lines) for d in later), 'a name after line 1 of a BOM buffer is off'
-    # --- match statement
-    r = results[-1]
+        for d in later:
+            if check_described(d, lines):
+                raise AssertionError('a name after line 1 of a BOM buffer is off: %r' % (d,))
+    r = results[len(srcs)]
     if 'fatal' not in r:
         # `match` / `case` occur in MATCH_SRC only as (soft) keywords
         toks = [(l, c, s) for (l, c, s) in identifier_tokens(MATCH_SRC) if s not in ('match', 'case')]
@@ -1299,17 +1461,27 @@ def stream_special(ctx):
         ctx.count('special', MATCH_SRC)
         oracle_names(ctx, 'special-match', MATCH_SRC, 'lf', MATCH_SRC, r,
                      dict(tokens=toks, binds=binds, has_match=True, python_valid=True))
+    r = results[len(srcs) + 1]
+    if 'fatal' not in r:
+        src = tasks[len(srcs) + 1]['code']
+        toks = identifier_tokens(src)
+        ctx.count('special', src)
+        oracle_names(ctx, 'special-dunder', src, 'lf', src, r, dict(tokens=toks, binds=binding_tokens(src, toks), python_valid=True))
+    return []
 
 
 # ---------------------------------------------------------------------------------------
 
 def run(ctx):
+    from concurrent.futures import ThreadPoolExecutor
     common.setup_jedi(os.path.join(ctx.tmp, 'cache'))
     ctx.proofs()
     ctx.cov['fingerprints'] = common.fingerprint(FP)
-    ctx.cov['rule'] = ('split: exhaustive strings over {a,\\n,\\r,\\f,\\v,\\x1c,\\x85,U+2028,\\t} up to length 4 (5 thorough) + seeded longer; '
-                       'tree: seeded windows of corpus files (all windows in thorough) + every generated source; '
-                       'names/tokens: seeded valid programs x {LF, CRLF, CR, mixed, no final newline} + small corpus files; '
+    ctx.cov['rule'] = ('split: exhaustive strings over {a,\\n,\\r,\\f,\\x85,U+2028,\\t} up to length 4 (5 thorough) + seeded longer; '
+                       'tree: seeded windows of corpus files (all windows in thorough) + generated sources; '
+                       'names/tokens: seeded valid programs x {LF, CRLF, CR, mixed, no final newline} + small corpus files '
+                       '(oracles on all variants, model on 2 of 5 variants per program in quick, all in thorough); '
+                       'corpus: get_names + oracles on sampled (thorough: all) corpus files; '
                        'api: seeded two-file projects x name/complete/call probes x all query methods; '
                        'non-trivial = string with a break-like character / source with >= 1 name / result with a position; distinct by input')
     ctx.assumptions += [
@@ -1317,10 +1489,23 @@ def run(ctx):
         'the module-scope flag of a name is recomputed by the harness (position-based transcription of get_parent_scope)',
         'CPython tokenize/ast are the oracle for identifier tokens and binding tokens on syntactically valid sources; attribute targets count as binding, global/nonlocal declarations do not (language reference 4.2.1)',
         'exceptions raised by the query methods themselves are skipped here (C01); exceptions of position accessors on returned objects are reported']
-    for f in (stream_split, stream_special, stream_corpus_windows, stream_generated, stream_api):
+    pend = []
+    for f in (stream_split, stream_special, stream_corpus_windows, stream_corpus_names, stream_generated, stream_api):
         t = time.time()
-        f(ctx)
+        pend += f(ctx) or []
         ctx.stat('wall_' + f.__name__, round(time.time() - t, 1))
+    t = time.time()
+
+    def ev(p):
+        return common.coq_failing(IMPORTS, p.fn, p.cases, shard=p.shard, defs=DEFS, timeout=1200)
+    with ThreadPoolExecutor(max_workers=max(1, len(pend))) as ex:
+        outs = list(ex.map(ev, pend))
+    for p, (fails, err) in zip(pend, outs):
+        if err:
+            raise RuntimeError('coq evaluation failed (%s): %s' % (p.label, err))
+        p.on_fail(fails)
+    ctx.stat('wall_coq_evaluation', round(time.time() - t, 1))
+    ctx.stat('coq_cases', {p.label: len(p.cases) for p in pend})
 
 
 def replay(ctx, path):
@@ -1328,6 +1513,8 @@ def replay(ctx, path):
     print(json.dumps(rec, indent=1, ensure_ascii=False)[:4000])
     common.setup_jedi(os.path.join(ctx.tmp, 'cache'))
     src = rec.get('source') or rec.get('string')
+    if src is None and rec.get('path'):
+        src = read_source(os.path.join(common.REPO, rec['path']))
     if src is None:
         return 0
     if rec.get('stream') == 'split' or 'string' in rec:
@@ -1336,20 +1523,23 @@ def replay(ctx, path):
         print('oracle  :', oracle_lines(src))
         print('model   :', common.coq_show(IMPORTS, ['split_lines %s' % g_str(src)]))
         return 0
-    r = analyse(dict(sid=0, code=src, tree=True, api=False))
+    r = analyse(dict(sid=0, code=src, tree=len(src) < 4000, api=False))
     if 'fatal' in r:
         print('implementation raises:', r['fatal'])
         return 0
     lines = oracle_lines(src)
     print('get_names(all_scopes, definitions, references) now:')
     for d in r['details']:
-        print('  ', (d['line'], d['column'], d['name'], d['type'], d['is_def'], d['def_start'], d['def_end']),
-              'FAILS: %r' % check_described(d, lines) if check_described(d, lines) else '')
+        bad = check_described(d, lines)
+        if bad or len(r['details']) < 80:
+            print('  ', (d['line'], d['column'], d['name'], d['type'], d['is_def'], d['def_start'], d['def_end']),
+                  'FAILS: %r' % bad if bad else '')
     try:
         toks = identifier_tokens(src.replace('\r\n', '\n').replace('\r', '\n'))
         print('identifier tokens (tokenize):', toks[:80])
     except Exception as e:
         print('tokenize:', e)
-    shown = common.coq_show(IMPORTS, ['(consistent (%s), map obs_name (script_names (%s) true true true))' % (r['tree'], r['tree'])], defs=DEFS)
-    print('model:', shown[-3000:])
+    if 'tree' in r:
+        shown = common.coq_show(IMPORTS, ['(consistent (%s), map obs_name (script_names (%s) true true true))' % (r['tree'], r['tree'])], defs=DEFS)
+        print('model:', shown[-3000:])
     return 0
